@@ -821,3 +821,116 @@ Proof.
     rewrite (proj2 (nth_error_None _ _)) by (rewrite firstn_length; lia).
     symmetry. apply nth_error_None. rewrite spec_map_length. exact Hi.
 Qed.
+
+(** * "Nothing disappears": lower bounds *)
+Lemma set_first_kw_count name v args t : forall r, set_first_kw name v args = Some r ->
+  exists old, first_kw_value name args = Some old /\
+              cnt (toks_args r) t + cnt (toks old) t = cnt (toks_args args) t + cnt (toks v) t.
+Proof.
+  induction args as [|a0 l IH]; intros r H; simpl in H; [discriminate|]. simpl first_kw_value.
+  destruct (kw_is name a0).
+  - inversion H; subst. exists (value a0). split; [reflexivity|].
+    rewrite !toks_args_cons, !cnt_app. pose proof (toks_arg_set_value a0 v t). lia.
+  - destruct (set_first_kw name v l) as [r'|]; [|discriminate]. inversion H; subst.
+    destruct (IH r' eq_refl) as [old [Ho Hc]]. exists old. split; [exact Ho|].
+    rewrite !toks_args_cons, !cnt_app. lia.
+Qed.
+Lemma set_first_kw_none_value name v args : set_first_kw name v args = None -> first_kw_value name args = None.
+Proof.
+  induction args as [|a0 l IH]; simpl; intros H; [reflexivity|].
+  destruct (kw_is name a0); [discriminate|]. destruct (set_first_kw name v l); [discriminate|]. apply IH. reflexivity.
+Qed.
+Lemma set_param_count_ge name pos v args t :
+  cnt (toks_args args) t <= cnt (toks_args (set_param name pos v args)) t + cnt (set_param_lost name pos args) t.
+Proof.
+  unfold set_param, set_param_lost. destruct (set_first_kw name v args) as [r|] eqn:E.
+  - destruct (set_first_kw_count name v args t r E) as [old [Ho Hc]]. rewrite Ho. lia.
+  - rewrite (set_first_kw_none_value name v args E).
+    destruct (nth_error args pos) as [a|] eqn:Hp.
+    + destruct (is_plain_positional a && forallb is_plain_positional (firstn pos args)).
+      * pose proof (replace_at_count args pos a v t Hp). lia.
+      * rewrite toks_args_app, cnt_app. lia.
+    + rewrite toks_args_app, cnt_app. lia.
+Qed.
+
+Lemma cookie_unlisted_mono args a : unlisted a cookie_full = true -> unlisted a (choose_new_args args) = true.
+Proof.
+  unfold cookie_full, choose_new_args. change (existsb is_samesite_strict []) with false. cbv iota.
+  destruct (existsb is_samesite_strict args); [|intros H; exact H].
+  unfold unlisted. destruct (kw a) as [k|]; [|reflexivity]. unfold find_info. cbn [app find na_name].
+  destruct (str_eqb k (S_ "secure")); [intros H; exact H|].
+  destruct (str_eqb k (S_ "httponly")); [intros H; exact H|]. reflexivity.
+Qed.
+
+Lemma single_call_count_ge k : lower_kind k = true -> forall u t,
+  cnt (toks u) t <= cnt (toks (on_result_found_upd k u)) t + cnt (lost_kind k (args_of u)) t.
+Proof.
+  intros Hk u t. destruct u as [s|e a|s|m f args].
+  1-3: rewrite arg_kind_noncall by ((destruct k as [| | | |[]| | | | | | | |]; try discriminate Hk; reflexivity) || (intros; discriminate)); lia.
+  unfold on_result_found_upd.
+  destruct k as [info| |name v|safe|[] safe|lim| | | | | | |]; try discriminate Hk;
+    cbn [on_result_found update_arg_target with_args args_of add_arg_to_call lost_kind].
+  - rewrite !toks_call, !cnt_app. pose proof (replace_args_count_ge args info t). lia.
+  - rewrite !toks_call, !cnt_app. pose proof (replace_args_count_ge args (choose_new_args args) t).
+    pose proof (listed_values_mono args cookie_full (choose_new_args args) t (cookie_unlisted_mono args)). lia.
+  - rewrite !toks_call, !cnt_app. unfold add_arg. rewrite toks_args_app, cnt_app. lia.
+  - assert (G : cnt (toks (ECall m f args)) t
+                <= cnt (toks (ECall m f (replace_args args (ssl_protocol safe)))) t + cnt (listed_values args (ssl_protocol safe)) t).
+    { rewrite !toks_call, !cnt_app. pose proof (replace_args_count_ge args (ssl_protocol safe) t). lia. }
+    destruct args as [|a [|b r]]; try (rewrite cnt_app; lia).
+    destruct (kw a) eqn:Ek; [rewrite cnt_app; lia|].
+    rewrite !toks_call, !cnt_app, toks_args_cons. unfold toks_arg. rewrite Ek. cbn [app].
+    change (toks_args []) with (@nil tok). rewrite app_nil_r. lia.
+  - rewrite !toks_call, !cnt_app. unfold pyyaml_args. pose proof (set_param_count_ge (S_ "Loader") 1 safe args t). lia.
+Qed.
+
+Lemma rw_upd_args_count_ge k args t :
+  Forall (fun a => cnt (toks (value a)) t <= cnt (toks (rw_upd k (value a))) t + cnt (lost_tree k (value a)) t) args ->
+  cnt (toks_args args) t
+  <= cnt (toks_args (map (fun a => set_value a (rw_upd k (value a))) args)) t
+     + cnt (flat_map (fun a => lost_tree k (value a)) args) t.
+Proof.
+  induction 1 as [|a r Ha _ IH]; [simpl; lia|].
+  simpl map. simpl flat_map. rewrite !toks_args_cons, !cnt_app.
+  pose proof (toks_arg_set_value a (rw_upd k (value a)) t). lia.
+Qed.
+
+(** whole trees: what disappears is contained in the old values the documented edits may overwrite *)
+Lemma rw_upd_count_ge k e t : lower_kind k = true ->
+  cnt (toks e) t <= cnt (toks (rw_upd k e)) t + cnt (lost_tree k e) t.
+Proof.
+  intros Hk. induction e as [s|e a IH|s|m f args IHf IHa] using expr_ind'.
+  - simpl. lia.
+  - simpl. rewrite !cnt_app. lia.
+  - simpl. lia.
+  - cbn [rw_upd lost_tree].
+    set (args' := map (fun a => set_value a (rw_upd k (value a))) args).
+    set (u := ECall m (rw_upd k f) args').
+    assert (Hu : cnt (toks (ECall m f args)) t
+                 <= cnt (toks u) t + cnt (lost_tree k f) t + cnt (flat_map (fun a => lost_tree k (value a)) args) t).
+    { subst u args'. rewrite !toks_call, !cnt_app. pose proof (rw_upd_args_count_ge k args t IHa). lia. }
+    rewrite !cnt_app. destruct m.
+    + pose proof (single_call_count_ge k Hk u t) as S. change (args_of u) with args' in S. lia.
+    + change (cnt [] t) with O. lia.
+Qed.
+
+(** * The model of the documented kinds IS the documented edit *)
+Lemma call_edit_documented k : documented_kind k = true -> forall u, on_result_found_upd k u = spec_call k u.
+Proof.
+  intros Hk u. unfold on_result_found_upd.
+  destruct k as [info| |name v|safe|[] safe|lim| | | | | | |]; try discriminate Hk;
+    cbn [on_result_found spec_call update_arg_target add_arg_to_call].
+  - rewrite (replace_args_is_spec _ info (nodupb_NoDup _ Hk)). reflexivity.
+  - rewrite (replace_args_is_spec _ _ (cookie_names_nodup (args_of u))). reflexivity.
+  - reflexivity.
+  - reflexivity.
+Qed.
+Lemma rw_upd_is_spec k e : documented_kind k = true -> rw_upd k e = rw_spec k e.
+Proof.
+  intros Hk. induction e as [s|e a IH|s|m f args IHf IHa] using expr_ind'; simpl; try reflexivity.
+  - rewrite IH. reflexivity.
+  - rewrite IHf.
+    assert (E : map (fun a => set_value a (rw_upd k (value a))) args = map (fun a => set_value a (rw_spec k (value a))) args).
+    { apply map_ext_in. intros a Hin. rewrite Forall_forall in IHa. rewrite (IHa a Hin). reflexivity. }
+    rewrite E. destruct m; [apply call_edit_documented; exact Hk|reflexivity].
+Qed.
